@@ -21,7 +21,7 @@ import (
 func TestRegressAddPartitionsThenClose(t *testing.T) {
 	n := 60
 	if ev.Thorough() {
-		n = 600
+		n = 300
 	}
 	for i := 0; i < n; i++ {
 		bubble.Run(t, nil, func(e *bubble.Env) {
